@@ -147,6 +147,28 @@ Check C08_builtin : forall fail_at openable pl sh st o1 c1 o2 c2,
   lookup (tab sh) 1 = Some (o1, c1) -> lookup (tab sh) 2 = Some (o2, c2) ->
   teq_tab (res_shell (run_pipeline v0 fail_at openable pl sh)) (tab sh).
 
+(* the arm for a target that cannot be opened, with the output captured or not, as its own case: the command
+   fails, nothing is printed, and the shell's table -- capture pipes included -- is what it was.  (The cleanup of the
+   capture pipes is decided by cl.is_single_and_builtin() in run_pipeline, not by the pid-like value
+   run_single_program returns on this arm; the model follows the code in that.) *)
+Theorem C08_builtin_unopenable : forall fail_at openable pl sh st o1 c1 o2 c2,
+  p_stages pl = [st] -> s_kind st = KBuiltin ->
+  allopen openable (s_redirs st) = false ->
+  lookup (tab sh) 1 = Some (o1, c1) -> lookup (tab sh) 2 = Some (o2, c2) ->
+  let r := run_pipeline v0 fail_at openable pl sh in
+  res_error r = true /\ res_kids r = [] /\ res_sinks r = [] /\ teq_tab (res_shell r) (tab sh).
+Proof.
+  intros fail_at openable pl sh st o1 c1 o2 c2 ES EK AO H1 H2. cbv zeta.
+  destruct (builtin_unopenable_error v0 fail_at openable pl sh st eq_refl ES EK AO) as (A & B & C).
+  repeat split; auto. eapply C08_builtin; eauto.
+Qed.
+Example C08_captured_builtin_unopenable :
+  let r := run_pipeline v0 nf (fun p => negb (Nat.eqb p 5)) (mkplan [mks FNone [mkr F1 false (TFile 5)] KBuiltin [true]] true) sh0 in
+  res_error r = true /\ map (obj_at (tab (res_shell r))) [3; 4; 5; 6] = [None; None; None; None] /\
+  rev (tr (res_shell r)) = [EPipe 3 4; EPipe 5 6; EOpen 5 MTrunc None;
+                            EClose 3 true; EClose 4 true; EClose 5 true; EClose 6 true].
+Proof. vm_compute. repeat split; reflexivity. Qed.
+
 (* descriptor exhaustion in the up-front loop: error, nothing forked, everything released
    (the capture pipes' failure points are covered by C08_shell: table restored) *)
 Theorem C08_emfile : forall v fail_at openable pl sh k,
@@ -256,6 +278,7 @@ Proof. vm_compute. repeat split; reflexivity. Qed.
 Print Assumptions C08_shell.
 Print Assumptions C08_children.
 Print Assumptions C08_builtin.
+Print Assumptions C08_builtin_unopenable.
 Print Assumptions C08_holds.
 Print Assumptions C08_emfile.
 Print Assumptions C08_emfile_capture.
